@@ -5,7 +5,7 @@ DEFAULT = dict(
     p_sync=0.12, p_with=0.12, p_try=0.12, p_raise=0.06, p_let=0.15, p_old=0.25, p_bad=0.02, p_lazy=0.05,
     p_const=0.12, p_errfut=0.04, p_item=0.45, p_dict=0.08, p_none=0.08, p_read=0.06, p_probe=0.06,
     p_item_err=0.08, p_item_skip=0.05, p_flush_raise=0.1, p_prio=0.4, p_ctx_fault=0.0, p_nonasync=0.0,
-    p_override=0.4, p_result=0.1, nvars=2, roots=(1, 1), p_lazy_err=0.4, p_keep=0.0, max_width=3,
+    p_override=0.4, p_result=0.1, nvars=2, roots=(1, 1), p_lazy_err=0.4, p_keep=0.0, max_width=3, p_maxstack=0.0,
 )
 
 
@@ -186,6 +186,8 @@ class Gen:
         p = {"kinds": kinds}
         if self.r.random() < c["p_keep"]:
             p["keep"] = True
+        if self.r.random() < c["p_maxstack"]:
+            p["maxstack"] = self.r.choice([1, 2, 3, 4, 5, 6, 8])
         return p
 
     def case(self):
